@@ -179,7 +179,12 @@ impl Iterator for ManiaGradualDifficulty {
 
 impl ExactSizeIterator for ManiaGradualDifficulty {
     fn len(&self) -> usize {
-        self.diff_objects.len() + 1 - self.idx
+        if self.note_states.is_empty() {
+            // No hit objects means no attributes
+            0
+        } else {
+            self.diff_objects.len() + 1 - self.idx
+        }
     }
 }
 
